@@ -120,3 +120,17 @@ Proof.
   split; [exact sn_book|]. split; [apply actb_spec; vm_compute; reflexivity|]. split; [exact sn_forest|].
   split; [exact sn_wfv|]. split; [vm_compute; reflexivity|]. split; [exact sn_split|]. split; vm_compute; reflexivity.
 Qed.
+
+(* non-vacuity of StaticSplitStats.uwp_blk_ok: the right half r = block 4 of sn' after "r->posn = b->posn" is not at its
+   optimum; updateWeightedPosition recomputes it *)
+Example uwp_blk_ok_example :
+  wf_vars (svars sn') /\ (4 < length (blocks sn'))%nat /\ bvars (block_of sn' 4) <> [] /\ 0 < bscale (block_of sn' 4) /\
+  blk_ok (update_weighted_position sn' 4) 4.
+Proof.
+  assert (W : wf_vars (svars sn')) by exact sn_wfv.
+  assert (H1 : (4 < length (blocks sn'))%nat) by (vm_compute; lia).
+  assert (H2 : bvars (block_of sn' 4) <> []) by (vm_compute; discriminate).
+  assert (H3 : 0 < bscale (block_of sn' 4)) by (vm_compute; reflexivity).
+  split; [exact W|]. split; [exact H1|]. split; [exact H2|]. split; [exact H3|].
+  exact (proj1 (uwp_blk_ok sn' 4 W H1 H2 H3)).
+Qed.
